@@ -2,6 +2,10 @@
 """Regenerates /verif/MANIFEST.json from the table below (kept in one place so it stays valid)."""
 import json, os
 CHECKS = {
+ "C05": dict(level="model_checking", engine="S",
+   text="The real client against the real RunATPServer (and a v1 peer answering with the real CallStep) for 11-14 sessions (1-3 Executes serial/concurrent, valid / schema-rejected / unknown-step input, a signal, pipe and buffered-stream transports with read fragmentation): every schedule within the delay bound and every fragmentation within the deviation bound is executed and each Execute must return exactly the (output id, CBOR-normalised data) that CallStep returns in-process for its own input; rejected input must come back as that call's error.",
+   note="Trusted: scheduler shim, rewriter; expected values come from the repository's own CallStep in-process; payload variety is C01's job.",
+   technique="stateless model checking of client+server implementation: delay-bounded DFS over schedules and fragmentation choices, differential oracle against the in-process call", design="DESIGN.md §7 C05"),
  "C06": dict(level="model_checking", engine="S",
    text="Exhaustive enumeration of all thread schedules (bounded by the number of non-default scheduling choices, iterated 0,1,2[,3]) of the real ATP client against a scripted correct peer, for 15-18 session histories of 1-3 Executes with signals and step-fatal errors; every execution must end with every Execute and Close returned, own results delivered, no client thread left, no timer needed.",
    note="Trusted: the cooperative scheduler shim (engine/mcrt) and the source rewriter (engine/vinstr); scripted peer is causally correct; scheduling points only at sync/channel/transport operations; bounds as reported in evidence.",
